@@ -248,7 +248,7 @@ PROBE_ALPHA = ['a', 'b', 'Z', '0', '-', ' ', '\t', "'", '"', '\\', 'é', '€', 
 @st.composite
 def probe_cases(draw):
     args = draw(st.lists(st.text(alphabet=PROBE_ALPHA, min_size=1, max_size=5), min_size=0, max_size=4))
-    form = draw(st.sampled_from(['string', 'string', 'list', 'popen']))
+    form = draw(st.sampled_from(['string', 'string', 'list', 'popen', 'bare']))
     enc = draw(st.sampled_from([None, None, 'utf-8', 'latin-1']))
     if enc == 'latin-1':
         args = [a.replace('€', 'é') for a in args]
@@ -271,7 +271,39 @@ def _render_arg(a, style):
     return render_segment(a, style)
 
 
+def check_bare(case, col=None):
+    """A bare command name (found through the PATH search) with an env argument that may lack PATH: the child's
+    environment is exactly the requested one and the caller's mapping is left alone."""
+    import copy
+    env = case['env']
+    if env is None or any('\n' in v or '\r' in v for v in env.values()):
+        env = {'ONLY': 'this'}
+    env = {k: v for k, v in env.items() if k.isascii() and k != 'PATH'}
+    if case['dims']:
+        env['PATH'] = ''            # an empty PATH is also "no usable PATH"
+    before = copy.deepcopy(env)
+    with guard('spawn(bare command name, env without PATH)'):
+        child = pexpect.spawn('env', env=env, timeout=20, echo=False)
+        child.expect(pexpect.EOF)
+        out = child.before.decode('utf-8', 'replace')
+        child.close()
+    got = {}
+    for line in out.replace('\r\n', '\n').split('\n'):
+        if '=' in line:
+            k, v = line.split('=', 1)
+            got[k] = v
+    if env != before:
+        raise Violation('probe-env', 'spawn() changed the env mapping it was given: %r -> %r' % (before, env))
+    if got != before:
+        raise Violation('probe-env', 'env(1) started by bare name with env=%r reports %r' % (before, got))
+    if col is not None:
+        col.label('probe:bare')
+        col.case(case, True)
+
+
 def check_probe(case, col=None):
+    if case['form'] == 'bare':
+        return check_bare(case, col)
     from pexpect.popen_spawn import PopenSpawn
     root = tempfile.mkdtemp(prefix='c13p_')
     saved_hup = None
